@@ -481,3 +481,7 @@ O("C16.make_evrrul", ["C16", "C07"], "h_C16.c", "h_C16_make_evrrul",
   ["__make_evrrul"], solver=["minisat", "kissat"], timeout={"quick": 600, "thorough": 1800}, unwind=6, replay=False, replay_note="zone stubs",
   cbmc_flags=["--malloc-may-fail", "--malloc-fail-null"],
   assumptions=["echs_instant_utc / echs_tzob_offs replaced by stubs in which the UTC and the wall-clock reading of an instant get different offsets"])
+for fn, ent in (("BinaryFirst", "h_C20_binary_first"), ("BinaryLast", "h_C20_binary_last")):
+    O("C20.%s" % fn, "C20", "h_C20.c", ent,
+      "%s (binary search of the sort) over an array of any length up to 2^20: reads only inside the range, returns an index in [start, end], terminates (inductive loop contract), writes nothing" % fn,
+      [fn], dfcc=True, enforce=fn, loop_contracts=True, solver=["minisat", "kissat"], timeout={"quick": 600, "thorough": 1800}, replay=False, replay_note="frame variant (is_fresh inputs)")
